@@ -4,6 +4,8 @@ import AutoVerif.Drv.C02
 import AutoVerif.Drv.C05
 import AutoVerif.Drv.C09
 import AutoVerif.Drv.C11
+import AutoVerif.Drv.C18
+import AutoVerif.Drv.C14
 import AutoVerif.Drv.C17
 import AutoVerif.Drv.C16
 import AutoVerif.Drv.C15
@@ -29,6 +31,8 @@ def dispatch (prop : String) (input impl : Json) : R Reply :=
   | "C05" => C05.handle input impl
   | "C09" => C09.handle input impl
   | "C11" => C11.handle input impl
+  | "C18" => C18.handle input impl
+  | "C14" => C14.handle input impl
   | "C17" => C17.handle input impl
   | "C16" => C16.handle input impl
   | "C15" => C15.handle input impl
